@@ -137,7 +137,7 @@ async def server_side(net, hyg, plan):
         await net.quiesce(1.0)
         for leak in w.leaks():
             viol.append({"key": "hostile-session-not-released", "msg": f"{leak}; hostile lines {sent[:5]}"})
-        for e in hyg.loop_errors:
+        for e in hyg.serious_loop_errors():
             viol.append({"key": "exception-reached-loop", "msg": f"{e}; hostile lines {sent[:5]}"})
         await w.stop()
         return {"violations": viol, "monitors": mon, "by": by.peer.normalized() if plan["bystander"] else None,
@@ -444,7 +444,7 @@ async def client_side(net, hyg, plan):
         hs.server.close()
         hs.data_server.close()
         await net.quiesce(0.5)
-        for e in hyg.loop_errors:
+        for e in hyg.serious_loop_errors():
             viol.append({"key": "exception-reached-loop:client", "msg": f"{e}"})
         return {"violations": viol, "monitors": mon, "sig": sig_of([plan["target"], getattr(hs, "plan_bytes", b"").hex(), [x for l in hs.listing_sent for x in l][:6], calls]),
                 "nontrivial": True, "calls": calls}
